@@ -23,7 +23,7 @@ ASSUMPTIONS = ["tiling uses a candidate set of positions: when a short inner reg
                "region both 'pad to the inner end' and 'clip at the enclosing region' are accepted",
                "a ValueConstraintViolatedError may escape only for a command code outside the command table or a selector "
                "that selects no union member (checked against the pinned layout)"]
-TIERS = {"quick": {"runs": 80000, "budget": 75, "run_timeout": 20}, "thorough": {"runs": 900000, "budget": 780, "run_timeout": 20}}
+TIERS = {"quick": {"runs": 80000, "budget": 75, "run_timeout": 30}, "thorough": {"runs": 900000, "budget": 780, "run_timeout": 30}}
 
 
 def make_case(i, rng, tier):
@@ -96,6 +96,15 @@ def check(case):
                   "%s: warn mode aborted with %s: %s (raised in %s) after %d events / %d warnings" % (
                       label, t.exc_sum[0], str(t.exc)[:300], t.site, len(t.items), nwarn))
             return res
+    # (a') the two problems that make the layout unknowable are never delivered as a warning: a warning whose error is
+    # about a *union* (its selector selects no member) means decoding went on although it cannot know what follows
+    L = layout()
+    for n_, it in enumerate(t.items):
+        if it[0] == "W" and it[1] == "ValueConstraintViolatedError" and len(it) > 3 and isinstance(it[3], str) and \
+                L.types.get(it[3], {}).get("kind") == "union":
+            res.v("C08.a", "C08.a:unknowable-layout-as-warning", "%s: event %d is a warning that the selector of %s at %s selects no member - "
+                  "this must raise, the layout behind it is unknowable (decoding went on for %d more events)" % (label, n_, it[3], it[2], len(t.items) - n_ - 1))
+            break
     # (b) tiling
     ok, msg, st = tiling.check(t.items, data, t.events, escaped)
     res.count("tiling:skips", st["skips"])
